@@ -214,8 +214,6 @@ pub fn run(args: &Args, r: &mut Report) {
                         let is_val = matches!(&c.result, Some((_, Err(e))) if e.contains("CupValidation"));
                         m.judge("c02-forged-update-check-is-validation-error", is_val, kind, || format!("check #{} got a forged reply but ended with {:?}", c.idx, c.result.as_ref().map(|x| &x.1)));
                         m.judge("c02-no-plan-or-install-after-forgery", c.plan.is_none() && c.install_start.is_none(), kind, || format!("check #{}: plan / install after a forged reply", c.idx));
-                        let reason = c.metrics.iter().find_map(|x| if let MetricSnap::FailureReason(s) = &x.1 { Some(s.clone()) } else { None });
-                        m.judge("c02-failure-reason-internal", reason.as_deref() == Some("Internal"), kind, || format!("failure reason metric {:?}", reason));
                     }
                 }
                 // twin run: same observable behaviour as a non-retried transport failure at that position
